@@ -77,9 +77,18 @@ StatusVerdict(o) ==
       st == IF present = {} THEN "absent" ELSE o.rows[CHOOSE k \in present : TRUE][2]
   IN (IF o.treated => (st = "absent" \/ st \in Terminal) THEN {} ELSE {"ActiveNeverFinished"})
      \cup (IF o.parsed = Len(o.rows) THEN {} ELSE {"StatusRowsParsed"})
+\* the whole path against a scheduler that interprets the squeue command line (harness: funcs.squeue_sim): what counts is
+\* what the scheduler HOLDS (o.rows), not what a filtered listing shows
+StatusCmdVerdict(o) ==
+  LET present == {k \in 1..Len(o.rows) : o.rows[k][1] = o.query}
+      st == IF present = {} THEN "absent" ELSE o.rows[CHOOSE k \in present : TRUE][2]
+      final == st = "absent" \/ st \in Terminal
+  IN (IF (o.treated \/ o.single \in {"none", "complete"}) => final THEN {} ELSE {"ActiveNeverFinished"})
+     \cup (IF o.errA = "" /\ o.errB = "" THEN {} ELSE {"StatusRowsParsed"})
 SubmitVerdict(o) == IF <<o.result, o.jobid>> = ExpectedSubmit(o.cls) THEN {} ELSE {"SubmitResponseParsed"}
 Verdict(o) == CASE o.kind = "retry" -> RetryVerdict(o) [] o.kind = "script" -> ScriptVerdict(o)
-                [] o.kind = "squeue" -> StatusVerdict(o) [] OTHER -> SubmitVerdict(o)
+                [] o.kind = "squeue" -> StatusVerdict(o) [] o.kind = "squeuecmd" -> StatusCmdVerdict(o)
+                [] OTHER -> SubmitVerdict(o)
 
 OInit == r = 0 /\ listed = FALSE /\ hist = <<>> /\ stopped = TRUE /\ i \in 1..Len(Obs)
 Init == IF Mode = "machine" THEN MInit ELSE OInit
